@@ -78,8 +78,10 @@ class Config(_mixins.CodeMixin):
         max_sample_generation_trials: int = 1000,
     ):
         self._original_seed_sequence = seed_sequence
-        self.seed_sequence = seed_sequence or int.from_bytes(
-            os.urandom(8), byteorder="big"
+        self.seed_sequence = (
+            seed_sequence
+            if seed_sequence is not None
+            else int.from_bytes(os.urandom(8), byteorder="big")
         )
         self.cache_size = cache_size
         self.hbar = hbar
